@@ -1,5 +1,6 @@
 -- driver: broker Um.Drv.Broker
 import UmModel.BrokerOps
+import UmModel.BrokerInvCheck
 import UmDriver.Common
 /-! Line protocol of the broker model (see `harness/src/bin/umh_broker.rs` for the grammar). -/
 namespace Um.Drv.Broker
@@ -76,6 +77,7 @@ def step (s : Store) (toks : List String) : Store × String :=
     | some l => (s, renderR (fun o => match o with | some v => renderVProxy v | none => "NONE") (proxyView s a l))
     | none => (s, "bad-op")
   | ["check"] => (s, s!"{checkMetadata s}")
+  | ["inv"] => (s, invReport s)
   | _ =>
     match parseOp toks with
     | some op => finO (stepFull s op) s
